@@ -201,6 +201,7 @@ def build_harness(name="l1", race=False):
 # they are compiled, scanned and counted together with the main file
 EXTRA_PROPERTY_FILES = {
     "C06": ["C06own"],
+    "C20": ["C20float"],
 }
 
 def property_targets(pid):
@@ -228,7 +229,8 @@ def _property_file_info(pid):
     examples = re.findall(r"^\s*Example\s+(\w+)", src_nc, flags=re.M)
     rc, out = sh(["coqc", "-Q", ".", "hagall", "-w", "-notation-overridden,-ambiguous-paths,-deprecated-hint-without-locality,-deprecated-instance-without-locality", "Properties/%s.v" % pid], cwd=COQ, timeout=1800)
     closed = len(re.findall(r"Closed under the global context", out))
-    axioms = sorted(set(re.findall(r"^\s*([A-Za-z_][\w\.]*)\s*:", out.split("Axioms:", 1)[1], flags=re.M))) if "Axioms:" in out else []
+    # axioms are printed with their qualified names (Classical_Prop.classic : ..., or the bare name on its own line)
+    axioms = sorted(set(re.findall(r"^([A-Z]\w*(?:\.\w+)+)\b", out.split("Axioms:", 1)[1], flags=re.M))) if "Axioms:" in out else []
     return {"ok": rc == 0, "theorems": theorems, "examples": examples, "closed": closed,
             "axioms": axioms, "log": out[-4000:]}
 
